@@ -129,9 +129,14 @@ _RE_INV = re.compile(r"Invariant (\S+) is violated")
 _RE_PROP = re.compile(r"(?:Action property|Temporal properties|property) (\S+)? ?(?:is|were) violated")
 
 
+MIN_TLC_TIMEOUT = int(os.environ.get("VERIF_MIN_TLC_TIMEOUT", "900"))
+
+
 def tlc(module, cfg, metadir, workers=None, timeout=900, env=None, simulate=None, depth=None,
         seed=None, extra=None, deadlock=False, coverage=False, heap=None, dfs=False):
     """Run TLC on /verif/spec/<module>.tla with /verif/spec/<cfg>.  Returns a dict."""
+    # a timeout is an inconclusive run (exit 2), never a verdict: be generous, the box may be loaded
+    timeout = max(timeout, MIN_TLC_TIMEOUT)
     os.makedirs(metadir, exist_ok=True)
     jopts = ["-XX:+UseParallelGC", "-Xss64m", "-DTLA-Library=" + SPEC]
     jopts.append("-Xmx" + (heap or os.environ.get("VERIF_TLC_HEAP", "6g")))
@@ -240,6 +245,7 @@ def validate_trace(module, cfg, trace_path, metadir, timeout=900, env=None, heap
         by the spec's POSTCONDITION (register 2 accumulates them), the number of consumed lines is
         printed as  "CONSUMED n".
     Returns dict(consumed, total, viols[list], res)."""
+    timeout = max(timeout, MIN_TLC_TIMEOUT)
     viol_path = os.path.join(metadir, "viols.ndjson")
     os.makedirs(metadir, exist_ok=True)
     if os.path.exists(viol_path):
